@@ -22,7 +22,7 @@ class C12(Prop):
     pid = "C12"
     title = "resource tree traversal, lookup and reassembly reflect the stored directory"
     thm_modules = ["PeliteModel.Thm.C12", "PeliteModel.Thm.C12Find", "PeliteModel.Thm.C12Name", "PeliteModel.Thm.ImageLayout", "PeliteModel.Thm.C12Layout", "PeliteModel.Thm.Witnesses64"]
-    gens = [gen_res.gen_wellformed, gen_res.gen_corrupt, gen_res.gen_small, gen_res.gen_offpath, gen_walk.gen_shared_dag, gen_res.gen_res_big, gen_res.gen_nameeq, gen_res.gen_selfref_big]
+    gens = [gen_res.gen_wellformed, gen_res.gen_corrupt, gen_res.gen_small, gen_res.gen_offpath, gen_walk.gen_shared_dag, gen_res.gen_res_big, gen_res.gen_nameeq, gen_res.gen_selfref_big, gen_res.gen_dangling]
 
     def oracle(self, op, impl, model, spec):
         w = want(op)
